@@ -37,7 +37,8 @@ class ChemistryFile(AutoChemistry):
 
     def write(self, output):
         gas_entry = super().write(output)
-        gas_entry.write_scalar('filename',self._filename)
+        gas_entry.write_string('filename', self._filename)
+        gas_entry.write_string_array('gases', self._gases)
 
         return gas_entry
 
